@@ -1049,20 +1049,18 @@ impl<'a> Gen<'a> {
             sentinel.push(Call::plain(Op::SetEnv { value: None }));
         }
         sentinel.extend(self.sentinel(&mut r));
-        // two independent interleaving engines; the shuttle one (coroutines on one OS thread)
-        // shares thread-locals between simulated threads, so it is switched off entirely
-        // when the library has any (VERIF_ENGINES=threads, set by the driver)
+        // two interleaving engines. Default is real OS threads under the baton scheduler.
+        // The shuttle one (coroutines on one OS thread) shares thread-locals between simulated
+        // threads, so it is opt-in (VERIF_ENGINES=mixed|shuttle) and refused by the driver
+        // when the library has any thread_local!
         let engines = std::env::var("VERIF_ENGINES").unwrap_or_default();
+        let shuttle_draw = r.below(4) == 0;
         let engine = match engines.as_str() {
-            "threads" => "threads",
             "shuttle" => "shuttle",
-            _ => {
-                if r.below(4) == 0 {
-                    "shuttle"
-                } else {
-                    "threads"
-                }
-            }
+            // cross-checking mode: a quarter of the executions on the coroutine engine
+            "mixed" if shuttle_draw => "shuttle",
+            // default: real OS threads only — the faithful engine (DESIGN.md §9.2)
+            _ => "threads",
         };
         Plan {
             stratum: "C".into(),
